@@ -364,11 +364,11 @@ Proof. vm_compute. reflexivity. Qed.
 Example ex_km_small : total_size cbnt_cbntkey_Manifest_desc ex_km < 65536.
 Proof. vm_compute. reflexivity. Qed.
 
-(* the offset Rehash stores is 69 = 12+2+3+1+1+1+2+(2+8+2+2+32), and 69 is where the
+(* the offset Rehash stores is 68 = 12+2+3+1+1+1+2+(2+8+2+2+32), and 68 is where the
    key-and-signature structure starts *)
 Example ex_km_offset :
-  vnth (fst (write cbnt_cbntkey_Manifest_desc ex_km)) 1 = Some (VInt 69) /\
-  read cbnt_KeySignature_desc (zskipn 69 (snd (write cbnt_cbntkey_Manifest_desc ex_km))) = Some (ex_ks, []).
+  vnth (fst (write cbnt_cbntkey_Manifest_desc ex_km)) 1 = Some (VInt 68) /\
+  read cbnt_KeySignature_desc (zskipn 68 (snd (write cbnt_cbntkey_Manifest_desc ex_km))) = Some (ex_ks, []).
 Proof. split; vm_compute; reflexivity. Qed.
 
 Example ex_km_roundtrip :
